@@ -9,6 +9,7 @@ from ..viol import Violation, require
 ID = 'C15'
 LEVEL = 'exploration'
 RULE = (
+    'Big: hundreds of MDD nodes, equal successors computed separately must be merged; manager and conversion without variables; integer variables named like bits of other integer variables; decref of unreferenced nodes. '
     'Rejected MDD calls (find_or_add with an unknown successor / wrong arity / bad level, apply with unknown node / operator / arity, ite with unknown node) are interleaved and must leave the MDD tables untouched. '
     'R (conversion): Hypothesis 1-3 integer variables of 1-3 bits (<=6 '
     'bits), every integer order and initial bit order drawn, 1-4 referenced '
